@@ -5,7 +5,7 @@ PROP = dict(
     lean_module="AbraProofs.Properties.C08",
     required_theorems=["C08_deepcopy_total", "C08_deepcopy_iso", "C08_deepcopy_sharing", "C08_spawn_copies_one_graph",
                        "C08_deepcopy_equal", "C08_deepcopy_preserves_original", "C08_deepcopy_disjoint",
-                       "C08_deepcopy_fresh", "C08_spawn_fresh", "C08_stale_table_counterexample",
+                       "C08_deepcopy_fresh", "C08_deepcopy_shares_nothing", "C08_spawn_fresh", "C08_stale_table_counterexample",
                        "C08_deepcopy_channel_shared", "C08_threads_isolated", "C08_spawn_isolated",
                        "C08_deepcopy_prerepair_cyclic"],
     harness_bin="c08",
@@ -24,7 +24,11 @@ PROP = dict(
          "two-node cycle; one Box twice in an array; cycles ROOTED AT AN ARRAY: array->struct->same array, array->variant->same "
          "array, array->array->variant->first array; a variant-rooted cycle; arrays that are EMPTY at the spawn - directly, in a "
          "struct, a tuple, an enum payload, the environment of two closures, or popped down to nothing - and grown on both sides "
-         "afterwards); plus (quick 60 / thorough 750) HISTORIES of copies on one thread: the spawner reads heap messages "
+         "afterwards); plus the NESTED GRID (quick 70): every container kind (struct field, tuple component, array "
+         "element, variant payload, closure capture) over every leaf (array<int>, string, channel<int>), every pair of containers "
+         "over the mutable array, random triples (depth 3): the innermost array is pushed to on both sides after the spawn and "
+         "observed on both sides (a channel leaf must be shared), each with a `heapalias` model request walking the same slots; "
+         "plus (quick 60 / thorough 750) HISTORIES of copies on one thread: the spawner reads heap messages "
          "it wrote itself (array / struct holding the array), mutates in between, spawns tasks capturing those same objects, in "
          "random order (a read first, a spawn after it); then every task, every snapshot and the originals are mutated and all "
          "are printed - nothing may survive from one copy to the next). In the alias shapes the task mutates through one alias and observes through the other, so does "
